@@ -4255,6 +4255,20 @@ void Tokenizer::simplifyTemplates()
 //---------------------------------------------------------------------------
 
 
+#ifdef DANMAR_CPPCHECK_VERIF
+#include <cstdio>
+namespace {
+    // verif hook: optional trace of the VariableMap operations (CPPCHECK_VERIF_VMTRACE = file to append to)
+    std::FILE* verifVmTrace() {
+        static std::FILE* const f = [] {
+            const char* p = std::getenv("CPPCHECK_VERIF_VMTRACE");
+            return p ? std::fopen(p, "a") : nullptr;
+        }();
+        return f;
+    }
+}
+#endif
+
 namespace {
     /** Class used in Tokenizer::setVarIdPass1 */
     class VariableMap {
@@ -4290,11 +4304,19 @@ namespace {
 
 void VariableMap::enterScope()
 {
+#ifdef DANMAR_CPPCHECK_VERIF
+    if (std::FILE* vf = verifVmTrace())
+        std::fprintf(vf, "E\n");
+#endif
     mScopeInfo.emplace(/*std::vector<std::pair<std::string, nonneg int>>()*/);
 }
 
 bool VariableMap::leaveScope()
 {
+#ifdef DANMAR_CPPCHECK_VERIF
+    if (std::FILE* vf = verifVmTrace())
+        std::fprintf(vf, "L %d\n", mScopeInfo.empty() ? 0 : 1);
+#endif
     if (mScopeInfo.empty())
         return false;
 
@@ -4310,6 +4332,10 @@ bool VariableMap::leaveScope()
 
 void VariableMap::addVariable(const std::string& varname, bool globalNamespace)
 {
+#ifdef DANMAR_CPPCHECK_VERIF
+    if (std::FILE* vf = verifVmTrace())
+        std::fprintf(vf, "A %s %d %d\n", varname.c_str(), globalNamespace ? 1 : 0, mVarId + 1);
+#endif
     if (mScopeInfo.empty()) {
         mVariableId[varname].id = ++mVarId;
         if (globalNamespace)
@@ -4707,6 +4733,10 @@ void Tokenizer::setVarIdPass1()
     const std::unordered_set<std::string>& notstart = (isC()) ? notstart_c : notstart_cpp;
 
     VariableMap variableMap;
+#ifdef DANMAR_CPPCHECK_VERIF
+    if (std::FILE* vf = verifVmTrace())
+        std::fprintf(vf, "B %s\n", list.getFiles().empty() ? "" : list.getFiles().front().c_str());
+#endif
     std::map<nonneg int, std::map<std::string, nonneg int>> structMembers;
 
     std::stack<VarIdScopeInfo> scopeStack;
@@ -5079,6 +5109,10 @@ void Tokenizer::setVarIdPass1()
             if (tok->varId() == 0 && (!scopeStack.top().isEnum || !(Token::Match(tok->previous(), "{|,") && Token::Match(tok->next(), ",|=|}"))) &&
                 !Token::simpleMatch(tok->next(), ": ;") && !(tok->tokAt(-1) && Token::Match(tok->tokAt(-2), "{|, ."))) {
                 const auto it = variableMap.map(globalNamespace).find(tok->str());
+#ifdef DANMAR_CPPCHECK_VERIF
+                const bool verifCtx = Token::Match(tok->previous(), "%type% %name% (") && !tok->previous()->isKeyword();
+                const Token* const verifTok = tok; // setVarIdStructMembers() may advance tok
+#endif
                 if (it != variableMap.map(globalNamespace).end()) {
                     if (!it->second.assigned || !Token::Match(tok->previous(), "%type% %name% (") || tok->previous()->isKeyword()) {
                         it->second.assigned = true;
@@ -5086,6 +5120,10 @@ void Tokenizer::setVarIdPass1()
                         setVarIdStructMembers(tok, structMembers, variableMap.getVarId());
                     }
                 }
+#ifdef DANMAR_CPPCHECK_VERIF
+                if (std::FILE* vf = verifVmTrace())
+                    std::fprintf(vf, "U %s %d %d %d %d %d\n", verifTok->str().c_str(), globalNamespace ? 1 : 0, verifCtx ? 1 : 0, verifTok->varId(), verifTok->linenr(), verifTok->column());
+#endif
             }
         } else if (Token::Match(tok, "::|. %name%") && Token::Match(tok->previous(), ")|]|>|%name%")) {
             // Don't set varid after a :: or . token
@@ -5101,7 +5139,57 @@ void Tokenizer::setVarIdPass1()
     }
 
     mVarId = variableMap.getVarId();
+#ifdef DANMAR_CPPCHECK_VERIF
+    if (std::FILE* vf = verifVmTrace()) {
+        std::fprintf(vf, "Z %d\n", mVarId);
+        std::fflush(vf);
+    }
+#endif
 }
+
+#ifdef DANMAR_CPPCHECK_VERIF
+// verif hook: drive the file-local VariableMap with a script, one op per line:
+//   E | L | A <name> <global> | U <name> <global> <ctx> | F <name> <global> | N
+// (U repeats the lookup of setVarIdPass1's use site, F is a plain map(global).find, N takes a fresh id as
+// setVarIdStructMembers does). One output token per op.
+std::string verifVariableMapScript(const std::string& script);
+std::string verifVariableMapScript(const std::string& script)
+{
+    VariableMap vm;
+    std::istringstream in(script);
+    std::ostringstream out;
+    std::string op, name;
+    int g = 0, ctx = 0;
+    while (in >> op) {
+        if (op == "E") {
+            vm.enterScope();
+            out << "e ";
+        } else if (op == "L") {
+            out << (vm.leaveScope() ? "l1 " : "l0 ");
+        } else if (op == "A") {
+            in >> name >> g;
+            vm.addVariable(name, g != 0);
+            out << "a" << vm.getVarId() << ' ';
+        } else if (op == "U") {
+            in >> name >> g >> ctx;
+            const auto it = vm.map(g != 0).find(name);
+            int id = 0;
+            if (it != vm.map(g != 0).end() && (!it->second.assigned || !ctx)) {
+                it->second.assigned = true;
+                id = it->second.id;
+            }
+            out << "u" << id << ' ';
+        } else if (op == "F") {
+            in >> name >> g;
+            const auto it = vm.map(g != 0).find(name);
+            out << "f" << (it != vm.map(g != 0).end() ? it->second.id : 0) << ' ';
+        } else if (op == "N") {
+            out << "n" << ++vm.getVarId() << ' ';
+        }
+    }
+    return out.str();
+}
+#endif
 
 namespace {
     struct Member {
